@@ -276,7 +276,8 @@ pub fn run(ctx: &mut Ctx) {
         for t in 0..threads {
             let b = barrier.clone();
             let base = NAME_PARTS[(r / 2) % NAME_PARTS.len()];
-            let part = if same_part { base.to_string() } else { format!("{}-t{}", base, t) };
+            // Per-thread parts that are not substrings of one another ("-t1" is a substring of "-t12").
+            let part = if same_part { base.to_string() } else { format!("{}-t{:03}t", base, t) };
             handles.push(std::thread::spawn(move || {
                 let calls = if heavy && t == 0 { (1usize << 20) + (1 << 16) } else { calls };
                 let mut out: Vec<(String, String)> = Vec::with_capacity(calls);
